@@ -125,7 +125,7 @@ fn rexp(x: f32) -> f64 { (x as f64).exp() }
 fn fallback_fns() -> Vec<Fn1> {
     use float::fallback as fb;
     vec![
-        Fn1 { name: "floor", f: fb::floor, r: rfloor, dom: lt63, b: Bound::Exact, dom_txt: "finite |x| < 2^63 (i64 cast range)" },
+        Fn1 { name: "floor", f: fb::floor, r: rfloor, dom: finite, b: Bound::Exact, dom_txt: "all finite" },
         Fn1 { name: "abs", f: fb::abs, r: rabs, dom: finite, b: Bound::Exact, dom_txt: "all finite" },
         // fast inverse square root + 1 Newton step: measured 1.76e-3 rel
         Fn1 { name: "recip_sqrt", f: fb::recip_sqrt, r: rrsqrt, dom: pos_normal, b: Bound::Rel(2.7e-3), dom_txt: "positive normal x < 1e37" },
@@ -153,7 +153,7 @@ fn libm_fns() -> Vec<Fn1> {
 fn mm_fns() -> Vec<Fn1> {
     use float::mm;
     vec![
-        Fn1 { name: "floor", f: mm::floor, r: rfloor, dom: lt31, b: Bound::Exact, dom_txt: "finite |x| < 2^31 (i32 cast range)" },
+        Fn1 { name: "floor", f: mm::floor, r: rfloor, dom: finite, b: Bound::Exact, dom_txt: "all finite" },
         Fn1 { name: "abs", f: mm::abs, r: rabs, dom: finite, b: Bound::Exact, dom_txt: "all finite" },
         // bit-trick sqrt + 1 Newton step: measured below
         Fn1 { name: "sqrt", f: mm::sqrt, r: rsqrt, dom: pos_normal_or_zero, b: Bound::Rel(2.5e-3), dom_txt: "positive normal, and +-0 (abs 1e-9)" },
@@ -193,10 +193,19 @@ fn check_rem(backend: &str, f: fn(f32, f32) -> f32, x: f32, m: f32, r: &mut Repo
 }
 
 fn check_atan2(backend: &str, f: fn(f32, f32) -> f32, y: f32, x: f32, b: Bound, r: &mut Report, maxerr: &Mutex<f64>) {
-    if x == 0.0 && y == 0.0 { return; }
     r.eval();
     let want = (y as f64).atan2(x as f64);
     let case = obj! {"kind" => "atan2", "backend" => backend, "y" => fbits(y), "x" => fbits(x)};
+    if x == 0.0 && y == 0.0 {
+        // the zero vector has no direction (std answers 0 or +-pi depending on the signs of the zeros): any angle will do,
+        // a NaN or a panic will not - it would poison every polar / spherical conversion of a zero vector
+        match caught(|| f(y, x)) {
+            Ok(g) if g.is_finite() && g.abs() <= 3.1415928 => {}
+            Ok(g) => r.violation(format!("{backend}-atan2|zero-vector|y={y}|x={x}"), format!("{backend}::atan2({y},{x}) = {g}"), case),
+            Err(p) => r.violation(format!("{backend}-atan2-panic|{y}|{x}"), format!("{backend}::atan2({y},{x}) panicked: {p}"), case),
+        }
+        return;
+    }
     match caught(|| f(y, x)) {
         Err(p) => r.violation(format!("{backend}-atan2-panic|{y}|{x}"), format!("{backend}::atan2({y},{x}) panicked: {p}"), case),
         Ok(g) => {
@@ -405,7 +414,14 @@ fn fp_consumers(r: &mut Report) {
             Err(p) => r.violation(format!("consumer-wrap-panic|k={k}|{mn}..{mx}"), format!("[{CFG_NAME}] wrap panicked: {p}"), case),
             Ok(w) => {
                 let q = (k as f64 / 48.0 - w as f64) / (mx - mn) as f64;
-                if !(w >= mn - 1e-5 && w <= mx + 1e-5) || (q - q.round()).abs() > rel * 10.0 {
+                // an input that is an exact whole number of interval lengths away from the lower end wraps to the lower end: the
+                // upper end may be reached by rounding only, and there is none here
+                // (judged on the radians the library actually holds: turns(-3) is not exactly three times turns(1))
+                let (xr, lr, hr) = (a.to_rads() as f64, turns(mn).to_rads() as f64, turns(mx).to_rads() as f64);
+                let n0 = ((xr - lr) / (hr - lr)).round();
+                if xr - lr == n0 * (hr - lr) && (w - mn).abs() > 1e-5 {
+                    r.violation(format!("consumer-wrap|upper-end|k={k}|{mn}..{mx}"), format!("[{CFG_NAME}] turns({}).wrap({mn},{mx}) = {w} turns: an exact multiple of the interval away from its lower end must wrap to the lower end", k as f32 / 48.0), case);
+                } else if !(w >= mn - 1e-5 && w <= mx + 1e-5) || (q - q.round()).abs() > rel * 10.0 {
                     r.violation(format!("consumer-wrap|k={k}|{mn}..{mx}"), format!("[{CFG_NAME}] turns({}).wrap({mn},{mx}) = {w} turns (q={q})", k as f32 / 48.0), case);
                 } else if k < 0 { r.nontrivial(); }
             }
